@@ -82,8 +82,15 @@ func smallDynBlock(r *Rng, w *bitW, out *[]byte, final bool, ntok int, litShift,
 		}
 	}
 	var toks []tok
+	style := r.Intn(3) // 0 random, 1 literal/match alternating, 2 two literals then a match
 	for i := 0; i < ntok; i++ {
-		if nlen > 0 && len(*out) > 0 && r.Intn(3) == 0 {
+		wantMatch := r.Intn(3) == 0
+		if style == 1 {
+			wantMatch = i%2 == 1
+		} else if style == 2 {
+			wantMatch = i%3 == 2
+		}
+		if nlen > 0 && len(*out) > 0 && wantMatch {
 			ls := lsyms[r.Intn(nlen)] - 257
 			ln := lenBase[ls]
 			if lenExtra[ls] > 0 {
@@ -135,7 +142,7 @@ func synthBoundary(r *Rng) []byte {
 	w := &bitW{}
 	var out []byte
 	// how far before the boundary the interesting part starts
-	back := r.Pick([]int{0, 0, 1, 1, 2, 2, 3, r.Intn(8), r.Intn(40), r.Intn(300), r.Intn(700)})
+	back := r.Pick([]int{0, 0, 0, 0, 1, 1, 1, 2, 2, 3, r.Intn(8), r.Intn(40), r.Intn(300), r.Intn(700)})
 	p := 65536 - back
 	if r.Intn(8) == 0 {
 		p += 65536 // second time round, after one slide of the window
@@ -226,4 +233,75 @@ func synthLongOnly(r *Rng) []byte {
 		smallDynBlock(r, w, &out, b == nb-1, r.Range(0, 40), ls, ds)
 	}
 	return w.bytes()
+}
+
+// synthOvfRoll: the output window is full (or one byte short) exactly where a pair/triple entry
+// "literal(s), length" starts, and the distance code behind it arrives in a later delivery: the
+// decoder first parks the literals as overflow literals, then has to roll the whole entry back.
+// Returns the stream and the byte offset where the dynamic block starts.
+func synthOvfRoll(r *Rng) ([]byte, int) {
+	w := &bitW{}
+	var out []byte
+	back := r.Intn(2)
+	p := 65536 - back
+	for len(out) < p {
+		n := p - len(out)
+		if n > 65535 {
+			n = 65535 - r.Intn(3)
+		}
+		blk := make([]byte, n)
+		for i := range blk {
+			blk[i] = byte('a' + r.Intn(3))
+		}
+		storedBlock(w, false, blk)
+		out = append(out, blk...)
+	}
+	off := len(w.bytes())
+	litLens := make([]int, 286)
+	a, b := r.Intn(256), r.Intn(256)
+	for b == a {
+		b = r.Intn(256)
+	}
+	ls := 257 + r.Pick([]int{0, 1, 7, 8, 12, 20, 27, 28})
+	lens := [][4]int{{1, 2, 3, 3}, {2, 2, 2, 2}, {1, 3, 3, 2}, {3, 1, 3, 2}, {2, 1, 3, 3}}[r.Intn(5)]
+	litLens[a], litLens[ls], litLens[b], litLens[256] = lens[0], lens[1], lens[2], lens[3]
+	distLens := make([]int, 30)
+	ds := r.Pick([]int{0, 3, 10, 20, 25, 29})
+	ds2 := (ds + 1 + r.Intn(28)) % 30
+	distLens[ds], distLens[ds2] = 1, 1
+	if r.Intn(3) == 0 {
+		distLens[ds], distLens[ds2] = 11+r.Intn(5), 1 // a long distance code
+	}
+	mk := func() tok {
+		l := ls - 257
+		ln := lenBase[l]
+		if lenExtra[l] > 0 {
+			ln += r.Intn(1 << lenExtra[l])
+		}
+		d := distBase[ds]
+		if distExtra[ds] > 0 {
+			d += r.Intn(1 << distExtra[ds])
+		}
+		return tok{Len: ln, Dist: d, Alt: ln == 258 && l == 27}
+	}
+	var toks []tok
+	switch {
+	case back == 1:
+		toks = []tok{{Lit: byte(a)}, {Lit: byte(r.Pick([]int{a, b}))}, mk()}
+	case r.Bool():
+		toks = []tok{{Lit: byte(a)}, mk()}
+	default:
+		toks = []tok{{Lit: byte(r.Pick([]int{a, b}))}, {Lit: byte(a)}, mk()}
+	}
+	for i := r.Intn(4); i > 0; i-- {
+		if r.Bool() {
+			toks = append(toks, tok{Lit: byte(a)})
+		} else {
+			toks = append(toks, mk())
+		}
+	}
+	dynHeader(r, w, false, litLens, distLens, r.Intn(3), r.Intn(4), "")
+	writeTokens(w, toks, litLens, distLens, true)
+	storedBlock(w, true, nil)
+	return w.bytes(), off
 }
